@@ -931,7 +931,8 @@ theorem beSolve_scratch (Y : Mat α) (sc sc' : Scratch α) (fuel : Nat)
   unfold beSolve
   simp only []
   obtain ⟨sc2, e, hrel, hlu2⟩ := beLoop_scratch o s p kc atol rtol timeStep fuel
-    { Yn1 := Y, Yn := Y, t := 0, h := if o.eq p.hstart 0 = true then timeStep else p.hstart,
+    { Yn1 := Y, Yn := Y, t := 0,
+      h := if o.eq p.hstart 0 = true then timeStep else cmin o p.hstart timeStep,
       nSucc := 0, nFail := 0, iterations := 0, stats := {}, status := .notYetCalled, done := false,
       sc := sc, trace := [] } sc' h hlu
   simp only [] at e
